@@ -15,6 +15,9 @@ TRUSTED_BASE = [
 
 PROPS = {
     "C13": {
+        "level_text": "Theorems in Coq about an executable model of Rust's i32 parsing, decimal printing and SHA-256-based encoding (parse = literal grammar, canonical printing, encode = specification, normalisation identity), for all strings; the model is tied to the code by running all seven encoding sites of the library and the extracted model on the same strings on every run, plus a generated call-site table theorem.",
+        "level_note": "Trusted: Coq kernel, extraction (ExtrOcamlBasic), harness/driver glue, translator. Modelled not verified: the Rust text; SHA-256/BigNumber of the crates are executed and compared with an independent Gallina SHA-256.",
+        "design_ref": "DESIGN.md §7 C13",
         "theorems": ["C13_parse_is_literal", "C13_encode_spec", "C13_canonical", "C13_numeric_injective",
                      "C13_idempotent_on_numeric", "C13_normalize_encode", "C13_transfer"],
         "rule": "corpus of edge strings, exhaustive windows around 0, +-2^31, +-2^32 in plain/signed/zero-padded/whitespace forms, "
@@ -26,4 +29,19 @@ PROPS = {
                         "target_endian = little (the big-endian cfg branch of encode_credential_attribute is not compiled here)"],
         "trusted_base": [],
     },
+    "C16": {
+        "level_text": "Theorems in Coq about an executable model of the WQL restriction parser (Deserialize for Query incl. the legacy list form), its printer (to_value) and version-dependent request validation: parse-print-parse for every JSON value, image invariant of the parser, legacy list = disjunction of non-empty filters, empty forms = no restriction, malformed forms characterised and rejected, v1 validation refuses exactly qualifiable-tag/URI pairs. Tied to the code by running the real serde parser/printer/validator and the extracted model on the same JSON values (exhaustive to a depth over an operator/tag/operand vocabulary + random deeper ones) on every run; QUALIFIABLE_TAGS and the URI regex are regenerated from the source and pinned by reflexivity lemmas.",
+        "level_note": "Trusted: Coq kernel, extraction (ExtrOcamlBasic), harness/driver glue, translator. Modelled not verified: utils/query.rs and pres_request.rs validation; serde_json itself (object key order, number parsing) is executed, not modelled; the Rust regex engine is modelled by a structured recogniser (Ident.v) compared on every run.",
+        "design_ref": "DESIGN.md §7 C16",
+        "theorems": ["C16_parse_print_parse", "C16_parse_image", "C16_print_parse", "C16_legacy_array_is_disjunction",
+                     "C16_empty_forms_unrestricted", "C16_malformed_rejected", "C16_v1_rejects_qualified", "C16_v2_accepts",
+                     "C16_tags_pin", "C16_transfer_parse", "C16_transfer_validate"],
+        "rule": "every JSON value to a nesting depth over the vocabulary {11 operator keys, 9 tags incl. junk and empty} x {12 operand leaves of every JSON type} (objects with 1-2 keys, arrays of 0-2), legacy list forms with null/empty filters, random deeper values; each parsed value is additionally embedded in a presentation request (attribute and predicate position, ver 1.0 / 2.0 / absent) and validated; "
+                "non-trivial = the value is an object or array (reaches parse_query) ; distinct = distinct abstract case",
+        "assumptions": ["serde_json::Value object iteration order (BTreeMap: sorted keys) is what the model's association lists carry; the harness emits them in that order"],
+        "trusted_base": [],
+    },
 }
+
+NOTES = "MANIFEST.json is generated by bin/mkmanifest from bin/props.py; see DESIGN.md"
+NOT_CLAIMED = {}
